@@ -162,7 +162,7 @@ func layoutJudge(env *hx.Env, m layoutMeta) (hx.Verdict, string) {
 		for _, mm := range it.Methods {
 			var wantDoc []string
 			for _, l := range mm.Lines {
-				if !l.Notation {
+				if !l.Notation && !l.Directive {
 					wantDoc = append(wantDoc, "// "+l.Text)
 				}
 			}
@@ -171,6 +171,9 @@ func layoutJudge(env *hx.Env, m layoutMeta) (hx.Verdict, string) {
 				cls := "doc"
 				if len(m.File.PkgDoc) > 0 && len(wantDoc) == 0 {
 					cls = "doc:pkgdoc-on-commentless-method"
+				}
+				if strings.Contains(strings.Join(gotDoc, "\n"), "go:generate") {
+					cls = "directive-in-method-comment"
 				}
 				return hx.Failf(P+"|function-doc-differs|"+cls, "doc comment of %s: want %q, got %q\n--- setup ---\n%s\n--- output ---\n%s", mm.Name, wantDoc, gotDoc, m.File.Render(), o.Out), "doc-differs"
 			}
